@@ -365,14 +365,8 @@ class XTB(autode.wrappers.methods.ExternalMethodOEG):
     def gradient_from(self, calc: "CalculationExecutor"):
         raw = []
 
-        if os.path.exists(f"{calc.name}_xtb.grad"):
-            grad_file_name = f"{calc.name}_xtb.grad"
-            with open(grad_file_name, "r") as grad_file:
-                for line in grad_file:
-                    x, y, z = line.split()
-                    raw.append(np.array([float(x), float(y), float(z)]))
-
-        elif os.path.exists(f"{calc.name}_OLD.grad"):
+        # NOTE: A gradient file written by xtb is newer than a converted one
+        if os.path.exists(f"{calc.name}_OLD.grad"):
             with open(f"{calc.name}_OLD.grad", "r") as grad_file:
                 grad_lines = grad_file.readlines()
 
@@ -400,6 +394,13 @@ class XTB(autode.wrappers.methods.ExternalMethodOEG):
                     )
                     for line in raw
                 ]
+
+        elif os.path.exists(f"{calc.name}_xtb.grad"):
+            grad_file_name = f"{calc.name}_xtb.grad"
+            with open(grad_file_name, "r") as grad_file:
+                for line in grad_file:
+                    x, y, z = line.split()
+                    raw.append(np.array([float(x), float(y), float(z)]))
 
         if len(raw) == 0:
             raise CouldNotGetProperty(name="gradient")
